@@ -234,6 +234,8 @@ func propC10(c *Check) {
 	c.Rule("R2", "guards in AnteHandle on every path to next(): StdTx assertion, empty memo, one signer, unexpired timeout, and per message a mode split in which check/recheck/prepare lead to relayerTxOnly and process/finalize lead to the exact MsgNewEthBlock name with timeout == height or to relayerTxOnly; relayerTxOnly = namespace prefix + signer equals the current relayer proposer")
 	c.Rule("R3", "predicate enumeration: the string constants of the name tests are extracted and evaluated against every protobuf message type registered under a Msg service in the app's import closure: admitted = bitcoin + relayer messages (+ MsgNewEthBlock in block modes), all defined in this repository")
 	c.Rule("R4", "every admitted bitcoin/relayer handler binds the proposer (VerifyProposal / VerifyNonProposal / explicit proposer equality) before any write")
+	c.Rule("R5", "every transaction of a proposed block goes through the admission chain: the proposal check hands each tx to ProcessProposalVerifyTx (which runs the ante handler in process-proposal mode) before it accepts (C08/R1)")
+	c.DependOn("R5", "C08", propC08, map[string]bool{"R1": true}, regexp.MustCompile(`^(tx-verified|accept-after-all-txs) @`), "a tx that the proposal check accepts without ProcessProposalVerifyTx reaches a block without memo, signer, signature and sequence checks")
 
 	// R1 chain
 	nah := p.MustFn("app.NewAnteHandler")
